@@ -5,8 +5,51 @@ TRUSTED = ["C01 predicate wf_rtf (Rtf/WellFormed.v) evaluated by the extracted d
 ASSUMPTIONS = ["user text contains no raw RTF metacharacters except balanced, lexically valid fragments (as the quantifier says)"]
 
 
+# characters whose escape needs care: Latin-1, BMP below and above U+7FFF (the signed wrap), and beyond the BMP (surrogate pairs)
+UNI = ["\u00e9", "\u00b1", "\u2265", "\u7fff", "\u8000", "\uffee", "\U00010000", "\U0001f600", "\U00020bb7", "\U0010fffd",
+       "\U0001d49c x", "a\U0001f9ea\u00e9b"]
+
+
+def probe(t):
+    """One string in every text-bearing position of a small paginated document."""
+    rows = [[f"#{i}# {t}", f"@A{i // 2}{t}", f"@S{i // 3}{t}", t] for i in range(4)]
+    return {"df": {"cols": ["id", "g0", "s0", "c0"], "rows": rows},
+            "body": {"page_by": ["g0"], "subline_by": ["s0"]}, "page": {"nrow": 12},
+            "title": {"text": ["T0 " + t, "T1 " + t]}, "subline": {"text": "S0 " + t},
+            "headers": [{"text": ["H0 " + t, "H1 " + t]}],
+            "footnote": {"text": "F0 " + t, "as_table": True}, "source": {"text": "R0 " + t, "as_table": False},
+            "page_header": {"text": "P0 " + t}, "page_footer": {"text": "Q0 " + t},
+            "kind": "single", "strategy": "probe"}
+
+
+def sprinkle(spec, r):
+    """Append non-ASCII snippets to some of the texts of a generated document."""
+    def bump(c):
+        if isinstance(c, dict) and "text" in c:
+            t = c["text"]
+            if isinstance(t, list):
+                c["text"] = [x + " " + r.choice(UNI) if r.random() < 0.5 else x for x in t]
+            elif isinstance(t, str):
+                c["text"] = t + " " + r.choice(UNI)
+    for k in ("title", "subline", "footnote", "source", "page_header", "page_footer"):
+        if r.random() < 0.5:
+            bump(spec.get(k))
+    frames = [spec["df"]] if "df" in spec else [sec["df"] for sec in spec.get("sections", [])]
+    for df in frames:
+        for row in df["rows"]:
+            for j, v in enumerate(row):
+                if isinstance(v, str) and r.random() < 0.2:
+                    row[j] = v + r.choice(UNI)
+    return spec
+
+
 def generate(g, i):
-    return g.any_doc()
+    if i < len(UNI):
+        return probe(UNI[i])
+    spec = g.any_doc()
+    if g.r.random() < 0.25:
+        sprinkle(spec, g.r)
+    return spec
 
 
 def signature(spec, result):
@@ -14,4 +57,4 @@ def signature(spec, result):
 
 
 def run(ctx):
-    return common.run_docprop(ctx, "c01", generate, signature, n_quick=160, n_thorough=3000)
+    return common.run_docprop(ctx, "c01", generate, signature, n_quick=160 + len(UNI), n_thorough=3000 + len(UNI))
